@@ -11,6 +11,7 @@ Model: `Model/PktParse.lean` (newPacket / parseV4 / parseV6 / IPv6FindUpperProto
 `fix:` commit for F03).  Independent parser: `Spec/IP.lean` (no limit on the chain length).
 -/
 import Nebula.Lemmas.PktParse
+import Nebula.Lemmas.PktParseComplete
 
 namespace Nebula.Props.C20
 open Nebula.Pkt Nebula.Spec.IP Nebula.Lemmas.PktParse
@@ -83,6 +84,44 @@ theorem spec_walk_unbounded (f1 f2 nh : Nat) (rest : List UInt8) (off : Nat) (af
     (h1 : rest.length < f1) (h2 : rest.length < f2) : walk f1 nh rest off af k = walk f2 nh rest off af k :=
   walk_fuel f1 f2 nh rest off af k h1 h2
 
+/-- Completeness (the direction `agree` leaves open): every packet the independent parser resolves, whose
+upper-layer header holds the bytes the classification reads (`Spec.IP.Pkt.classifiable`) and whose chain
+has at most `maxIPv6ExtHeaders` (regenerated from the source: 8) extension headers — every such IPv4 packet,
+IPv4 has no chain — is *accepted*, and with exactly the fields the independent parser finds. -/
+theorem spec_resolved_accepted (d : List UInt8) (incoming : Bool) (sp : Pkt) (h : parse d = some sp)
+    (hc : sp.classifiable = true) (hk : sp.nExt ≤ maxIPv6ExtHeaders) :
+    ∃ fp, newPacket d incoming = .ok fp ∧ acceptable sp incoming (toClass fp) = true := by
+  obtain ⟨fp, hfp⟩ := newPacket_complete d incoming sp h hc hk
+  obtain ⟨sp', h1, h2⟩ := newPacket_agree d incoming fp hfp
+  rw [h] at h1
+  cases h1
+  exact ⟨fp, hfp, h2⟩
+
+/-- Acceptance characterised exactly. The walk limit is the only gap between `newPacket` and the
+independent parser: a packet is accepted iff the parser resolves it, it is classifiable, and its chain has
+at most `maxIPv6ExtHeaders` extension headers (a terminating non-first fragment header included). -/
+theorem accepted_iff (d : List UInt8) (incoming : Bool) :
+    (∃ fp, newPacket d incoming = .ok fp) ↔
+      ∃ sp, parse d = some sp ∧ sp.classifiable = true ∧ sp.nExt ≤ maxIPv6ExtHeaders := by
+  constructor
+  · rintro ⟨fp, h⟩
+    exact newPacket_ok_classifiable d incoming fp h
+  · rintro ⟨sp, h, hc, hk⟩
+    exact newPacket_complete d incoming sp h hc hk
+
+/-- The gap, stated: beyond the limit nothing is accepted, whatever the independent parser makes of it. -/
+theorem beyond_walk_limit_rejected (d : List UInt8) (incoming : Bool) (sp : Pkt) (h : parse d = some sp)
+    (hk : maxIPv6ExtHeaders < sp.nExt) : ∃ e, newPacket d incoming = .err e := by
+  cases hr : newPacket d incoming with
+  | ok fp =>
+    obtain ⟨sp', h1, _, h3⟩ := newPacket_ok_classifiable d incoming fp hr
+    rw [h] at h1; cases h1; omega
+  | err e => exact ⟨e, rfl⟩
+  | panic => exact absurd hr (newPacket_no_panic d incoming)
+
+/-- the walk limit the theorems speak about is the constant of the current source -/
+example : maxIPv6ExtHeaders = 8 := by decide
+
 -- ---------------------------------------------------------------------------------------------------
 -- non-vacuity / sanity on concrete packets
 
@@ -104,6 +143,11 @@ example : newPacket (chain 8) true =
 example : (parse (chain 9)).map (fun p => (p.proto, p.hdrLen, p.nExt)) = some (17, 112, 9) := by decide
 -- … and the (repaired) classifier rejects instead of reporting protocol 60
 example : newPacket (chain 9) true = .err .v6PacketTooShort := by decide
+
+-- the hypotheses of `spec_resolved_accepted` hold for the 8-header chain, those of
+-- `beyond_walk_limit_rejected` for the 9-header chain
+example : (parse (chain 8)).map (fun p => (p.classifiable, decide (p.nExt ≤ maxIPv6ExtHeaders))) = some (true, true) := by decide
+example : (parse (chain 9)).map (fun p => decide (maxIPv6ExtHeaders < p.nExt)) = some true := by decide
 
 -- a chain cut inside its last header is unresolved for the specification and rejected by the model
 example : parse ((chain 3).take 62) = none ∧ newPacket ((chain 3).take 62) false = .err .v6PacketTooShort := by decide
